@@ -56,7 +56,7 @@ Definition c09_ok (qk : quirks) (r : reg) (c : c09case) : bool :=
   | KSplit spec d sep m u =>
       let '(m', u') := split_format spec d sep in String.eqb m m' && String.eqb u u'
   | KFlags spec rm ex => String.eqb (remove_custom_flags spec) rm && String.eqb (extract_custom_flags spec) ex
-  | KExpN x e => opt_eqb String.eqb (fmt_n qk x) e
+  | KExpN x e => opt_eqb String.eqb (fmt_n as_found x) e      (* Python's own '{:n}', whatever pint does with it *)
   | KSi its e => String.eqb (siunitx_format_unit qk r its) e
   | KBack f short its e =>
       match back qk r f short its, e with
